@@ -24,7 +24,8 @@ XMonClauses(m, ev) ==
   << <<"C16-same-commands-as-a-plain-Client",
         ev.got.cmds = ev.ref.cmds \/ (ev.ref.res.t = "exc" /\ \E k \in 1..ev.attempts : ev.got.cmds = Rep(ev.ref.cmds, k))>>,
      <<"C16-same-result-or-same-kind-of-error-as-a-plain-Client", SameRes(ev.got.res, ev.ref.res)>>,
-     <<"C16-same-io-timeout-as-a-plain-Client", ev.got.conn.io = ev.ref.conn.io>>,
+     (* (a call that puts no command on the wire -- an empty batch -- need not touch a connection at all) *)
+     <<"C16-same-io-timeout-as-a-plain-Client", (ev.got.cmds # <<>> \/ ev.ref.cmds # <<>>) => ev.got.conn.io = ev.ref.conn.io>>,
      <<"C16-same-connect-timeout-and-socket-options-as-a-plain-Client",
         (ev.got.conn.est # <<>> /\ ev.ref.conn.est # <<>>) => ev.got.conn.est = ev.ref.conn.est>> >>
 XMonEffect(m, ev) == [m EXCEPT !.n = m.n + 1]
